@@ -500,7 +500,17 @@ impl AsmParser {
             "numeric literal",
         )?;
         let val = match tok.kind {
-            TokenKind::Lit(LiteralKind::Dec(val)) => val as u16,
+            TokenKind::Lit(LiteralKind::Dec(val)) => {
+                // A decimal above 32767 is stored wrapped to a negative `i16`: written without a
+                // minus sign, it does not fit any signed field (and must not be read as negative)
+                if val < 0
+                    && matches!(bits, Bits::Signed(_))
+                    && !self.get_span(tok.span).contains('-')
+                {
+                    return Err(error::parse_lit_range(tok.span, self.src, bits));
+                }
+                val as u16
+            }
             TokenKind::Lit(LiteralKind::Hex(val)) => val,
             _ => unreachable!("Found non-literal after checking for literal type"),
         };
